@@ -63,7 +63,8 @@ class Result:
 
 
 CHECK_RE = re.compile(
-    r"^Check \d+: (?P<name>.*)\n\s+- Status: (?P<status>\w+)\n\s+- Description: \"(?P<desc>.*)\"\n(?:\s+- Location: (?P<loc>.*)\n)?",
+    r"^Check \d+: (?P<name>[^\n]*)\n[ \t]+- Status: (?P<status>\w+)\n[ \t]+- Description: \"(?P<desc>(?:.|\n)*?)\"\n"
+    r"(?:[ \t]+- Location: (?P<loc>[^\n]*)\n)?(?=\n|Check|\Z)",
     re.M)
 PLAYBACK_RE = re.compile(
     r"Concrete playback unit test for `(?P<h>[^`]+)`:\n```\n(?P<src>.*?)\n```", re.S)
@@ -73,7 +74,7 @@ def parse_log(text, res):
     for m in CHECK_RE.finditer(text):
         res.nchecks += 1
         name, status, desc, loc = m.group("name", "status", "desc", "loc")
-        desc = desc.strip('"')
+        desc = " ".join(desc.strip('"').split())
         if ".cover." in name or name.endswith(".cover"):
             # keep the strongest status for a description used more than once
             prev = res.covers.get(desc)
